@@ -73,6 +73,24 @@ def write_value_module(work, tier, fam, shape, profiles, checks):
             conds.append(Cond(path, fn, '%s/%s/%s' % (shape.name, chk, 'x'.join(map(str, prof)) or '-'),
                               dict(shape=shape.name, check=chk, lengths=list(prof), symbolic=names + (['be'] if chk != 'end' else [])),
                               sample_args=sargs))
+    if 'rt' in checks:
+        # array counters: the count round trip alone with a symbolic count up to the decoder's array guard (65536)
+        k = 0
+        sizer_fields = W.sizer_names(W.strip(shape))
+        for it in W.struct_items(shape):
+            if it['kind'] == 'counter':
+                hi = 65536
+            elif it['kind'] == 'plain' and it['f'].name in sizer_fields:
+                st = W.strip(it['f'].type)
+                hi = min(65536, (1 << (8 * st.size - (1 if getattr(st, 'signed', False) else 0))) - 1)
+            else:
+                continue
+            fn = 'cnt__%d' % k
+            body.append('def %s(n: int, be: bool) -> bool:\n    """\n    pre: 0 <= n <= %d\n    post: _\n    """\n    return H.check_count_accept(CLS, %d, n, be)\n\n' % (fn, hi, k))
+            conds.append(Cond(path, fn, '%s/count-roundtrip/%d' % (shape.name, k),
+                              dict(shape=shape.name, check='array counter round trip', counter=k, symbolic='element count n in [0, %d] + byte order' % hi),
+                              sample_args=[hi, True]))
+            k += 1
     with open(path, 'w') as f:
         f.write(''.join(body))
     return conds
